@@ -39,6 +39,16 @@ PathVals(th) ==
         PathV(F_V6UC, N_Prefix("2001:db8:1::", "64"),
               PBase \o <<A_MpReach(F_V6UC, <<"2001:db8::1", "fe80::1">>, <<N_Prefix("2001:db8:1::", "64")>>)>>, "0"),
         PathV(F_V4UC, N_Prefix("10.1.2.0", "24"), <<A_NextHop("10.0.0.1")>>, "0")}
+  (* FlowSpec NLRI whose component items carry their operand in more octets than the value needs *)
+  \cup {PathV(F_V4FS, N_Flow(<<FS_Comp("5", <<FS_ItemL(TRUE, FALSE, l, 1, <<"80", 0>>)>>)>>), PBase \o <<A_MpReach(F_V4FS, <<>>,
+                <<N_Flow(<<FS_Comp("5", <<FS_ItemL(TRUE, FALSE, l, 1, <<"80", 0>>)>>)>>)>>)>>, "0") : l \in 0..3}
+  \cup {PathV(f, n, PBase \o <<A_MpReach(f, <<>>, <<n>>)>>, "0") :
+          f \in {F_V4FSVPN}, n \in {N_FlowVpn(RDBase, <<FS_Prefix("1", "10.1.2.0", "24", "0"),
+                                                          FS_Comp("4", <<FS_ItemL(FALSE, FALSE, 1, 3, <<"80", 0>>), FS_ItemL(TRUE, TRUE, 2, 5, <<"8080", 1>>)>>),
+                                                          FS_Comp("9", <<FS_ItemL(TRUE, FALSE, 1, 1, <<"18", 0>>)>>)>>)}}
+  \cup {PathV(F_V6FS, n, PBase \o <<A_MpReach(F_V6FS, <<>>, <<n>>)>>, "0") :
+          n \in {N_Flow(<<FS_Comp("13", <<FS_ItemL(TRUE, FALSE, 3, 1, <<"1048575", 2>>)>>)>>)}}
+  \cup {PathV(F_V4VPN, n, PBase \o <<A_MpReach(F_V4VPN, <<"10.0.0.1">>, <<n>>)>>, "0") : n \in {N_Vpn(<<"16">>, RDBase, "10.1.255.3", "20")}}
 
 RandPathVal(x) ==
   LET f == RandomElement(PathFamilies \cup MoreFamilies)
